@@ -191,6 +191,36 @@ CLAIMED = {
             'Trusts the small evaluator in sa/order_abs.py and that mpf_lt/le/gt/ge are exact (C05 '
             'clause); nan endpoints excluded.',
             'DESIGN.md section 2, Engine F'),
+    'C17': ('K-constants',
+            'static analysis: cache-discipline rules on constant_memo (gate, shift, store order), '
+            'rounding-flow classification of def_mpf_constant (Engine B) plus agreement of its +1 bump '
+            'with the shifts_down table, and wiring rules (like-named fixed functions, memoisation, '
+            'context and interval constants)',
+            'History independence: the memo serves a stored value only for requested <= stored '
+            'precision, shifts by exactly the difference and stores the value before the tag (an '
+            'aborted recomputation cannot leave a new tag on an old value).  Direction safety: the '
+            'floor value of a positive constant is bumped by one unit exactly for the modes for which '
+            'truncation goes the wrong way, then rounded once with the caller\'s (prec, rnd); the '
+            'interval constants evaluate (floor, ceiling) at one precision.  Decides these clauses, '
+            'not the digits.',
+            'That each *_fixed function returns a true floor (series length, guard bits) is numerical '
+            'and not decided; seeded change C17-2 (too few series terms for e) is not detected.',
+            'DESIGN.md section 4 (C17)'),
+    'C24': ('H-termination',
+            'static analysis: loop-shape rules over every while loop (own live exit, condition '
+            'variables changed), reference table of cap-guarded loops with an infeasible-guard '
+            '(clamp) contradiction rule, escalation-loop rule, and a sibling rule for asymptotic '
+            'Bernoulli series (divergence exit or start coefficient >= ln2/2pi)',
+            'Necessary conditions for termination that are visible in the loop shape: every unbounded '
+            'loop owns an exit that the loop body can make true; loops that rely on an iteration or '
+            'precision cap keep the cap inside the loop and the cap test is not made infeasible by a '
+            'preceding clamp; precision-escalation loops grow and compare with their bound before '
+            'raising; the four asymptotic Euler-Maclaurin tails have a divergence exit or start beyond '
+            'ln2/(2 pi) * working precision.  Found and repaired: mpc_psi0 never returned above ~4400 '
+            'bits.',
+            'Convergence of each series / Newton iteration for each argument is not decided; seeded '
+            'change C24-1 (Stirling threshold computed from the lower precision) is not detected.',
+            'DESIGN.md section 4 (C24)'),
 }
 
 NA_REASONS = {
